@@ -233,7 +233,20 @@ def main(tier, seed):
     rep.coverage["operations_with_temporary_operands"] = len(lines)
     rep.coverage["states"] += istates
     builds = [("dev", dev)] + ([("release", rel)] if tier == "thorough" else [])
+    # the optimised build collects only when the byte threshold is crossed (a different code path in allocate_raw): probes, operation
+    # batches and the allocation-heavy loops run there under its own pacing, with swept objects quarantined
+    from checks.c16 import LOOPS
+    rcases = [dict(c, gc="default") for c in cases if c["id"][0] in ("probe", "operation batch") and c["gc"] == "always"]
+    rcases += [{"id": ["loop", k, "default"], "main": v % {"N": 3000}, "gc": "default", "quarantine": True, "events": 1} for k, v in LOOPS.items()]
     nprog = 0
+    for c, r in zip(rcases, Pool(rel, "run", timeout=120).map(rcases)):
+        nprog += 1
+        if "runs" not in r:
+            rep.violation("%s %s under the optimised build's own pacing did not finish normally: %r" % (c["id"][0], c["id"][1], {k: r[k] for k in r if k != "events"}), {"case": c})
+        elif r.get("uaf", 0) > 0:
+            uafs = [e for e in r.get("events", []) if e.get("e") == "UseAfterFree"][:3]
+            rep.violation("%s '%s' (optimised build, paced collection): a reclaimed object was accessed: %r" % (c["id"][0], c["id"][1], uafs), {"case": c, "events": uafs})
+    rep.coverage["paced_release_runs"] = len(rcases)
     for bname, binary in builds:
         replies = Pool(binary, "run", timeout=60).map(cases)
         base = {}
